@@ -49,7 +49,7 @@ ASSUMPTIONS = ["hooks are delivered in a valid per-flow order (as mitmproxy.even
                "done() is the last thing that happens to the addon (shutdown)"]
 LEVEL_TEXT = "exploration: sampled interleavings of lifecycle hooks, filter changes and stops; every step compared with a reference model"
 LEVEL_NOTE = "model written from the property statement; filter semantics for ~http/~tcp/~udp/~dns/~websocket/~marked/~comment/~s/~e re-implemented in the model"
-QUICK_N, THOROUGH_N = 6_000, 500_000
+QUICK_N, THOROUGH_N = 1_800, 500_000
 
 _TMP = "/dev/shm" if os.path.isdir("/dev/shm") and os.access("/dev/shm", os.W_OK) else "/var/tmp"
 
